@@ -1047,7 +1047,7 @@ class SimplicialComplex:
                 clprime = set(self.closureOf(s))
                 if cl.isdisjoint(clprime):
                     # closures are disjoint, unify them
-                    cl = cl.update(clprime)
+                    cl.update(clprime)
                 else:
                     # closures intersect, we fail
                     return False
